@@ -526,7 +526,10 @@ void carquet_simd_dispatch_init(void) {
 #endif
 
 #ifdef CARQUET_ENABLE_AVX512
-    if (cpu->has_avx512f) {
+    /* avx512_ops.c is compiled with -mavx512f -mavx512bw -mavx512vl and its kernels use
+     * AVX-512BW instructions, so all three extensions must be present (AVX-512F alone,
+     * e.g. Knights Landing, would hit an illegal instruction). */
+    if (cpu->has_avx512f && cpu->has_avx512bw && cpu->has_avx512vl) {
         g_dispatch.prefix_sum_i32 = carquet_avx512_prefix_sum_i32;
         g_dispatch.prefix_sum_i64 = carquet_avx512_prefix_sum_i64;
         g_dispatch.gather_i32 = carquet_avx512_gather_i32;
